@@ -7,6 +7,8 @@
  *                         ops: read pread write pwrite fsync open rename ftruncate fallocate unlink
  *  VERIF_FAIL_FROM=1    (with VERIF_FAIL) fail the k-th and every later matching call
  *  VERIF_FAIL_N=<n>     (with VERIF_FAIL) fail the k-th and the next n-1 matching calls
+ *  VERIF_FAIL_SHORT=1  (with VERIF_FAIL=pread:...) the k-th matching pread is a legal SHORT read (half of the bytes), the
+ *                        error hits the pread that continues it (a bad sector in the middle of a block)
  *  VERIF_CORRUPT=<substr>:<k>   silent write fault: the k-th write()/pwrite() on a path containing <substr>
  *                        stores one flipped bit (first byte) and reports success
  *  VERIF_KILL=<k>:<before|after|mid>      SIGKILL self at the k-th state-changing call
@@ -32,7 +34,7 @@
 
 static int logfd = -1;
 static long seq;
-static long fail_k, fail_cnt, fail_errno, fail_from, fail_n = 1, fired;
+static long fail_k, fail_cnt, fail_errno, fail_from, fail_n = 1, fail_short, fired;
 static char fail_op[32], fail_sub[256];
 static long kill_k;
 static int kill_when; /* 0 before 1 after 2 mid */
@@ -74,6 +76,7 @@ static void init(void)
 				if (*q == ':') fail_errno = strtol(q + 1, 0, 10); else fail_errno = EIO; } }
 	}
 	if (getenv("VERIF_FAIL_FROM")) fail_from = 1;
+	if (getenv("VERIF_FAIL_SHORT")) fail_short = 1;
 	if ((e = getenv("VERIF_FAIL_N")) != 0 && atol(e) > 0) fail_n = atol(e);
 	if ((e = getenv("VERIF_CORRUPT")) != 0) {
 		const char *q = strrchr(e, ':');
@@ -179,6 +182,16 @@ ssize_t pread64(int fd, void *buf, size_t n, off64_t off)
 	char p[1024];
 	REAL(pread64);
 	init();
+	if (fail_k && fail_short && !strcmp(fail_op, "pread")) {
+		/* short read at the k-th matching call, error at the call after it */
+		if (strstr(fdpath(fd, p, sizeof(p)), fail_sub)) {
+			long c;
+			pthread_mutex_lock(&mu); c = ++fail_cnt; pthread_mutex_unlock(&mu);
+			if (c == fail_k && n > 1) return real_pread64(fd, buf, n / 2, off);
+			if (c == fail_k + 1) { ++fired; logline("FAIL-pread", p, 0, off, n, -1); errno = (int)fail_errno; return -1; }
+		}
+		return real_pread64(fd, buf, n, off);
+	}
 	if (fail_k && !strcmp(fail_op, "pread") && want_fail("pread", fdpath(fd, p, sizeof(p)))) { logline("FAIL-pread", p, 0, off, n, -1); return -1; }
 	return real_pread64(fd, buf, n, off);
 }
